@@ -188,7 +188,8 @@ def _check_main(ctx, rep: Report):
                     if isinstance(kw.value, ast.Name) and kw.value.id == "skip_invalidation" and "skip_invalidation" in own:
                         continue
                     nskip += 1
-                    ok = short == "InitMethod.init"
+                    from .base import site_allowed
+                    ok = site_allowed(ctx, short, lambda s_: s_ == "InitMethod.init")
                     rep.oblige("C11.SKIP", f"{short}", ok)
                     if not ok:
                         rep.violate(Violation("C11.SKIP", f"C11.SKIP|{short}", f"{short} passes skip_invalidation={ast.unparse(kw.value)}: the mutation leaves dependants stale",
